@@ -136,7 +136,7 @@ PROPS = {
     "C14": P("proof", "over the C13 chain invariant (hs = every position of the game so far): calc_spec (the chain's calculation = the "
              "position's own outcome when forced or a mandatory draw, else ≥5 / ≥3 occurrences of the current hash in hs give Repeat5 / "
              "Repeat3, else the position's own outcome); occurrences_ge (every true repetition — same squares, side, rights, en-passant "
-             "mark — is counted, by C05); passes_table (forced pass every filter, mandatory strict+relaxed, claimable relaxed only); "
+             "mark — is counted, by C05); passes_table (forced pass every filter, mandatory strict+relaxed, claimable relaxed only), passes_mono, is_force_exact; "
              "auto_spec (stores the calculated outcome exactly when it passes the filter); pop_push_counts; calc_total (no panic); "
              "Props/C14_exact: occurrences_eq and calc_spec_exact(') — with no 64-bit collision between the current position and "
              "the history the count IS the true repetition count and the calculation is stated over it",
